@@ -23,7 +23,7 @@ RULE = (
     "write theory.yaml + operator.yaml that yaml.safe_load and TheoryCard/OperatorCard.from_dict turn into cards equal to "
     "ekobox.cards.example with the documented modifications (order (1,0), init (1.65,4), mugrid [(sqrt(1e5),5)]). 'run': "
     "a generated tiny valid card pair dumped with ekobox.cards.dump, the three argument forms `eko run DIR`, `eko run TH "
-    "OP`, `eko run TH OP OUT` (drawn file names and output locations); the archive must appear at the documented place "
+    "OP`, `eko run TH OP OUT` (drawn file names and output locations, paths absolute or relative to the working directory); the archive must appear at the documented place "
     "and its operators and errors must be bitwise equal to eko.solve on the cards loaded from the same files. The CLI "
     "runs in a sub-process because its default destination is computed from the cwd at import time. Non-trivial = a "
     "directory without runcards/ or a non-existing destination (example), any non-example card (run); distinct by (kind, "
@@ -80,6 +80,7 @@ def strategy(tier):
             "th_name": draw(st.sampled_from(("theory.yaml", "t.yaml", "my theory.yml"))),
             "op_name": draw(st.sampled_from(("operator.yaml", "o.yaml", "sub/op card.yaml"))),
             "out_name": draw(st.sampled_from(("eko.tar", "res/out.tar", "x y.tar"))),
+            "relative": draw(st.booleans()),
             "card": card,
         }
 
@@ -207,6 +208,9 @@ def check_run(case, d):
             args.append(str(out))
     th_f.parent.mkdir(parents=True, exist_ok=True)
     op_f.parent.mkdir(parents=True, exist_ok=True)
+    if case.get("relative"):  # paths given relative to the working directory, as a user at a shell would
+        args = [args[0]] + [os.path.relpath(a, cwd) for a in args[1:]]
+        res.classes.append("paths=relative")
     try:
         cards.dump(th.raw, th_f)
         cards.dump(op.raw, op_f)
